@@ -260,6 +260,19 @@ func c01Run(c *fw.Ctx, b fw.Batch) {
 				}
 				i = j
 			}
+			// tokens from the signature tables of the tree under test behind the seed's first bytes
+			dict := lib.SourceDictionary()
+			for _, k := range []int{4, 8, len(s)} {
+				if k > len(s) || k > 64 {
+					continue
+				}
+				for ti, tok := range dict {
+					if !thorough && (ti+k+si)%12 != 0 {
+						continue
+					}
+					st.sweep(c, fmt.Sprintf("seed-%d-dictionary", lo+si), append(append([]byte{}, s[:k]...), tok...), false)
+				}
+			}
 			nm := 400
 			if thorough {
 				nm = 30000
@@ -341,7 +354,7 @@ func init() {
 	fw.Register(&fw.Prop{
 		ID:    "C01",
 		Level: "exploration",
-		Rule: "every input is copied into a guard-page arena (slice ends at an inaccessible page, cap == len) and given to EVERY registered detector directly, to the un-sliced tree walk and to Detect, with limits {0, 1, n-1, n, n+1, 3072, 2^31-1, 2^31, 2^32-1, random}; inputs = every seed at every prefix length (dense to 700, sparse and around 512-byte boundaries beyond), interesting 32-bit values written little/big-endian at the offsets of the first 64 bytes, random mutants / splices / truncations, and targeted families: hand-built zip local headers (attacker-chosen compressed size, name-length field, 0-7 further headers, every truncation), CRX length pairs that wrap uint32, OLE headers with every interesting sector id x both sector sizes x boundary lengths, Matroska DocType id at the last bytes and at the 4096 boundary with every vint width incl. 0, escape / partial-rune / quote tails, small boxes at every length around their guards, HTML metas / XML prologues that stress the hand-written scanners (the word charset without '=', unterminated quotes, cut tags); a subset also through DetectReader (5 chunk schedules) and DetectFile. " +
+		Rule: "every input is copied into a guard-page arena (slice ends at an inaccessible page, cap == len) and given to EVERY registered detector directly, to the un-sliced tree walk and to Detect, with limits {0, 1, n-1, n, n+1, 3072, 2^31-1, 2^31, 2^32-1, random}; inputs = every seed at every prefix length (dense to 700, sparse and around 512-byte boundaries beyond), interesting 32-bit values written little/big-endian at the offsets of the first 64 bytes, random mutants / splices / truncations, tokens from a dictionary of the signature packages' literals (read from the tree under test) placed behind each seed's first bytes, and targeted families: hand-built zip local headers (attacker-chosen compressed size, name-length field, 0-7 further headers, every truncation), CRX length pairs that wrap uint32, OLE headers with every interesting sector id x both sector sizes x boundary lengths, Matroska DocType id at the last bytes and at the 4096 boundary with every vint width incl. 0, escape / partial-rune / quote tails, small boxes at every length around their guards, HTML metas / XML prologues that stress the hand-written scanners (the word charset without '=', unterminated quotes, cut tags); a subset also through DetectReader (5 chunk schedules) and DetectFile. " +
 			"non-trivial = a detector answered true, or the input is a prefix of a seed that the detector accepts in full; distinct = distinct (detector, answer, log2 length bucket, limit class) tuples.",
 		Assumptions: []string{
 			"linux/amd64 only; 32-bit int overflow behaviour is not executed",
